@@ -13,7 +13,7 @@ Three parts:
 
 Regular-expression matching of string leaves is *not* modelled: the harness supplies, for every string leaf, how it
 resolves against the process names (`Leaf`), computed with Python `re` exactly as `_get_matches` does
-(`re.compile('^%s$' % leaf).match(name)`); an invalid regular expression is an input class of its own.
+(`re.compile('^%s$' % leaf).match(name)`); an invalid regular expression is an input class of its own (`Leaf.reError`, with the class of the exception).
 -/
 
 namespace Supv.App
@@ -183,11 +183,8 @@ inductive Val where
 /-- what the Python code raises -/
 inductive Err where
   | parse                 -- `ApplicationStatusParseError`: the one exception `update_status_formula` handles
-  | calleeAttr            -- `AttributeError`: `node.func.id` on a callee that is not an `ast.Name`
-  | noArg                 -- `IndexError`: `node.args[0]` on a call without positional argument
-  | regex (cls : Nat)     -- `re.compile('^%s$' % leaf)` raises (`re.error`, `OverflowError` …)
+  | regex (cls : Nat)     -- `re.compile('^%s$' % leaf)` raises something `_get_matches` does not map (see `regexMapped`)
   | recursion             -- `RecursionError`: `evaluate` nested deeper than the interpreter stack allows
-  | stmtAttr              -- `AttributeError`: `tree.body[0].value` on a statement without `value` (`status_tree`)
   | parser (cls : Nat)    -- `ast.parse` raises something else than `SyntaxError` (`status_formula` setter)
   deriving Repr, DecidableEq, Inhabited
 
@@ -195,6 +192,10 @@ inductive Err where
 def excName : Nat → String
   | 0 => "re.error" | 1 => "OverflowError" | 2 => "RecursionError" | 3 => "MemoryError" | 4 => "ValueError"
   | _ => "OTHER"
+
+/-- `_get_matches`: `except (re.error, OverflowError)` — the classes of `re.compile` exceptions that are turned into
+    `ApplicationStatusParseError` (codes of `excName`) -/
+def regexMapped (cls : Nat) : Bool := cls == 0 || cls == 1
 
 /-- `ApplicationStatus._get_process_status`: running-like, or EXITED expectedly (displayed state) -/
 def procUp (p : P) : Bool :=
@@ -210,7 +211,7 @@ def upAt (ps : List P) (i : Nat) : Bool :=
 def evalLeaf (leaves : List Leaf) (ps : List P) (k : Nat) : Except Err Val :=
   match leaves[k]? with
   | some (.exact p) => .ok (.b (upAt ps p))
-  | some (.reError c) => .error (.regex c)
+  | some (.reError c) => if regexMapped c then .error .parse else .error (.regex c)
   | some (.matching [p]) => .ok (.b (upAt ps p))
   | some (.matching []) => .error .parse
   | some (.matching qs) => .ok (.l (qs.map (upAt ps)))
@@ -251,17 +252,17 @@ def evaluate (leaves : List Leaf) (ps : List P) : (fuel : Nat) → Formula → E
   | fuel + 1, f =>
     match f with
     | .str k => evalLeaf leaves ps k
-    | .call fn args _ =>
+    | .call fn args nkw =>
       match fn with
-      | .notName => .error .calleeAttr          -- `node.func.id`
+      | .notName => .error .parse               -- 'unsupported function type'
       | .otherName => .error .parse             -- 'unsupported function'
       | fn =>
-        match args with
-        | [] => .error .noArg                   -- `node.args[0]`
-        | a :: _ =>                             -- further positional arguments and keywords are never looked at
+        match args, nkw with
+        | [a], 0 =>                             -- exactly one positional argument, no keyword
           match evaluate leaves ps fuel a with
           | .error e => .error e
           | .ok v => .ok (.b (applyFn (fn = .all) v.toList))
+        | _, _ => .error .parse                 -- 'unsupported arguments for function'
     | .boolOp isAnd vals =>
       match evalSeq (evaluate leaves ps fuel) vals with
       | .error e => .error e
@@ -277,9 +278,9 @@ def evaluate (leaves : List Leaf) (ps : List P) : (fuel : Nat) → Formula → E
     | .const => .error .parse                     -- 'unsupported Expr=Constant'
     | .other => .error .parse                     -- 'unsupported Expr=…'
 
-/-- **The exceptions that `update_status_formula` turns into a major failure.**  Today only
-    `ApplicationStatusParseError`; every other exception escapes `ApplicationStatus.update`.
-    (When `/repo` is repaired so that hostile shapes yield a major failure, this is the line to edit.) -/
+/-- **The exceptions that `update_status_formula` turns into a major failure.**  Only
+    `ApplicationStatusParseError`; every other exception (`RecursionError`, an unmapped `re.compile` exception) escapes
+    `ApplicationStatus.update`. -/
 def handled : Err → Bool
   | .parse => true
   | _ => false
@@ -313,8 +314,8 @@ inductive Top where
   | parserExc (cls : Nat)       -- `ast.parse` raises another exception (`RecursionError`, `MemoryError` …)
   | multi                       -- `len(tree.body) != 1`
   | stmtNoValue                 -- one statement that is not an `ast.Expr` and has no `value` attribute (`import os`, `pass`)
-  | stmtValueNone               -- one statement whose `value` is `None` (`return`, `x: int`)
-  | stmtValue (f : Formula)     -- one statement that is not an `ast.Expr` but has a `value` (`x = "a"`, `return "a"`)
+  | stmtValueNone               -- one statement, not an `ast.Expr`, whose `value` is `None` (`return`, `x: int`)
+  | stmtValue (f : Formula)     -- one statement, not an `ast.Expr`, that has a `value` (`x = "a"`, `return "a"`)
   | expr (f : Formula)          -- one expression statement
   deriving Repr, Inhabited
 
@@ -330,16 +331,16 @@ def load : Option Top → Except Err Loaded
   | some .syntaxError => .ok .noTree           -- `ApplicationStatusParseError('AST parse failure')`, logged by `load_status`
   | some (.parserExc c) => .error (.parser c)  -- only `SyntaxError` is caught by the setter
   | some .multi => .ok .noTree                 -- `ApplicationStatusParseError('unsupported AST expression')`
-  | some t => .ok (.tree t)
+  | some .stmtNoValue => .ok .noTree           -- the same: `type(tree.body[0]) is not ast.Expr`
+  | some .stmtValueNone => .ok .noTree
+  | some (.stmtValue _) => .ok .noTree
+  | some (.expr f) => .ok (.tree (.expr f))
 
 /-- `ApplicationRules.status_tree`: `self._status_tree.body[0].value` -/
 def statusTree : Loaded → Except Err (Option Formula)
   | .noTree => .ok none
-  | .tree .stmtNoValue => .error .stmtAttr
-  | .tree .stmtValueNone => .ok none
-  | .tree (.stmtValue f) => .ok (some f)
   | .tree (.expr f) => .ok (some f)
-  | .tree _ => .ok none                        -- unreachable: `load` never stores these
+  | .tree _ => .ok none                        -- unreachable: `load` only stores expression statements
 
 /-! ## `ApplicationStatus.update` -/
 
